@@ -90,6 +90,10 @@ func insertFences(repo string) error {
 	if err := insertLockFences(filepath.Join(repo, "pkg/http2/server.go")); err != nil {
 		missing = append(missing, "capture locks: "+err.Error())
 	}
+	// hand-over fences: around the hand-over of a connection to the HTTP/1.1 server
+	if err := insertHandoverFences(filepath.Join(repo, "pkg/proxyserver/proxyserver.go")); err != nil {
+		missing = append(missing, "hand-over: "+err.Error())
+	}
 	if len(missing) > 0 {
 		return fmt.Errorf("fence sites not found: %v", missing)
 	}
@@ -420,6 +424,87 @@ func insertFuncStartFence(path, fn, hook string) error {
 	}
 	if !found {
 		return fmt.Errorf("function not found")
+	}
+	var sb strings.Builder
+	if err := format.Node(&sb, fset, f); err != nil {
+		return err
+	}
+	return os.WriteFile(path, []byte(sb.String()), 0o644)
+}
+
+// insertHandoverFences puts a yield fence before every statement of the block
+// of serveConn that hands the connection to the HTTP/1.1 server (the block
+// containing the SendToChannel call), and one behind that block: the window
+// between the end of the handshake, the hand-over and the wait for the
+// HTTP/1.1 server is otherwise never split on one P.
+func insertHandoverFences(path string) error {
+	fset := token.NewFileSet()
+	f, err := parser.ParseFile(fset, path, nil, parser.ParseComments)
+	if err != nil {
+		return err
+	}
+	fence := func() ast.Stmt {
+		return &ast.ExprStmt{X: &ast.CallExpr{Fun: ast.NewIdent("verifYieldHandover"), Args: []ast.Expr{ast.NewIdent("conn")}}}
+	}
+	// the statement itself (not a nested block of it) calls <x>.SendToChannel(...)
+	callsSend := func(st ast.Stmt) bool {
+		has := false
+		ast.Inspect(st, func(nd ast.Node) bool {
+			switch x := nd.(type) {
+			case *ast.BlockStmt, *ast.FuncLit:
+				return false
+			case *ast.CallExpr:
+				if sel, ok := x.Fun.(*ast.SelectorExpr); ok && sel.Sel.Name == "SendToChannel" {
+					has = true
+				}
+			}
+			return true
+		})
+		return has
+	}
+	found := false
+	for _, d := range f.Decls {
+		fd, ok := d.(*ast.FuncDecl)
+		if !ok || fd.Name.Name != "serveConn" || fd.Body == nil || fd.Type.Params == nil || len(fd.Type.Params.List) != 1 ||
+			len(fd.Type.Params.List[0].Names) != 1 || fd.Type.Params.List[0].Names[0].Name != "conn" {
+			continue
+		}
+		ast.Inspect(fd.Body, func(nd ast.Node) bool {
+			if _, isLit := nd.(*ast.FuncLit); isLit {
+				return false
+			}
+			b, ok := nd.(*ast.BlockStmt)
+			if !ok {
+				return true
+			}
+			has := false
+			for _, st := range b.List {
+				if callsSend(st) {
+					has = true
+				}
+			}
+			if !has {
+				return true
+			}
+			var out []ast.Stmt
+			for _, st := range b.List {
+				// "if <x>.SendToChannel(...) { ... }": the branches run after the hand-over
+				if is, ok := st.(*ast.IfStmt); ok && callsSend(st) {
+					is.Body.List = append([]ast.Stmt{fence()}, is.Body.List...)
+					if eb, ok := is.Else.(*ast.BlockStmt); ok {
+						eb.List = append([]ast.Stmt{fence()}, eb.List...)
+					}
+				}
+				out = append(out, fence(), st)
+			}
+			out = append(out, fence())
+			b.List = out
+			found = true
+			return false
+		})
+	}
+	if !found {
+		return fmt.Errorf("serveConn hand-over block not found")
 	}
 	var sb strings.Builder
 	if err := format.Node(&sb, fset, f); err != nil {
